@@ -31,6 +31,11 @@ C17_OK(ev, i) == LET a == Base(ev, i) IN EolVariant(a.rows, ev.rows) /\ SameDoc(
 
 Holds(ev, i, p) ==
   CASE p = "C03" -> C03_OK(ev)
+    [] p = "C12" -> C12_OK(ev)
+    [] p = "C12x" -> C12_ExQuoted(ev)
+    [] p = "C09" -> C09_OK(ev)
+    [] p = "C09run" -> C09run_OK(ev)
+    [] p = "C04" -> C04_OK(ev)
     [] p = "C06" -> C06_OK(ev, i)
     [] p = "C10" -> C10_OK(ev, i)
     [] p = "C11" -> C11_OK(ev, i)
@@ -39,6 +44,10 @@ Holds(ev, i, p) ==
 
 NonTrivial(ev, i, p) ==
   CASE p = "C03" -> C03_NT(ev)
+    [] p = "C12" -> C12_NT(ev)
+    [] p = "C09" -> C09_NT(ev)
+    [] p = "C09run" -> TRUE
+    [] p = "C04" -> C04_NT(ev)
     [] p \in {"C06", "C10", "C11", "C17"} -> Len(ev.doc.elems) > 0
     [] OTHER -> FALSE
 
